@@ -53,7 +53,11 @@ impl GraphStore for GraphEngine {
     type Snapshot = StorageSnapshot;
 
     fn snapshot(&self) -> Self::Snapshot {
+        #[cfg(luqing_studio_nervusdb_verif)]
+        nervusdb_api::verif_hooks::sched("snapshot.before_i2e");
         let i2e = Arc::new(self.scan_i2e_records());
+        #[cfg(luqing_studio_nervusdb_verif)]
+        nervusdb_api::verif_hooks::sched("snapshot.after_i2e");
         let inner = self.begin_read();
         let tombstoned_nodes: HashSet<InternalNodeId> = collect_tombstoned_nodes(inner.runs());
         StorageSnapshot {
